@@ -534,7 +534,83 @@ def run_memory(ctx, P, cg):
                                        "the result of websocket_compress() is used as a length without a check for the error value", pe)
     if ncall < 1:
         raise AnalysisBroken("send_frame: call of websocket_compress not found")
+    # ---- C19.7 what the peer's inflater sees is what went through our deflater, with the negotiated windows ----
+    # (a) a payload that went through the connection's deflater is what is sent, flagged RSV1: the deflater's history now
+    #     contains it, so sending the plain bytes instead makes the two LZ77 windows diverge for all later messages
+    nsent = 0
+    for pe in _evals(ctx, P, sf, 1):
+        comp = [e for e in pe.events if e.kind == "call" and e.data["callee"] == "websocket_compress"]
+        wv = [e for e in pe.events if e.kind == "call" and e.data["callee"] is None]
+        if not comp or not wv:
+            continue
+        nsent += 1
+        e, w = comp[0], wv[-1]
+        buf, res = e.data["args"][1], e.data.get("result")
+        base = ln = None
+        for k, v in w.mem.items():
+            if isinstance(k, tuple) and k and k[0] == "field" and k[2] == "struct.socket_io_vector" and k[1][0] == "index" and k[1][2] == ("const", 1):
+                if k[3] == "iov_base":
+                    base = v
+                if k[3] == "iov_len":
+                    ln = v
+        ok = base is not None and ln is not None and res is not None and pe.equal(base, buf) and pe.equal(ln, res)
+        # RSV1 in the first header byte: the stored value's rsv operand resolves to 0x40 on this path
+        rsv_ok = False
+        for e2 in pe.events:
+            if e2.kind == "store" and isinstance(e2.data["cell"], tuple) and e2.data["cell"][0] == "ptrcell" and e2.pos > e.pos:
+                t = P.term(sf, e2.inst.a[0])
+                for sub in Q.subterms(t):
+                    if sub[0] == "phi":
+                        c = P._resolve_const(sf, sub[1], pe.view.envs()[-1])
+                        if c == 0x40:
+                            rsv_ok = True
+        A.need("C19.7 R-COMMIT", sf, "deflated-payload-is-what-is-sent", ok and rsv_ok,
+               "on a path on which the payload went through websocket_compress() successfully, the frame does not carry the compressed "
+               "bytes with RSV1 set (payload %s, length %s, RSV1 %s): the deflater's history already contains the message" %
+               (a_fmt(base) if base else "?", a_fmt(ln) if ln else "?", rsv_ok), pe)
+    if nsent < 1:
+        raise AnalysisBroken("send_frame: no path from websocket_compress to the writev call")
+    # (b) the extension header of the 101 is sent only if the extension was accepted
+    sur = P.fn("websocket.c:send_upgrade_response")
+    nresp = 0
+    for i in sur.all_insts():
+        if i.op == "load":
+            t = P.term(sur, i.a[0])
+            if t[0] == "field" and t[3] == "response" and Q.mentions(t, lambda x: x[0] == "field" and x[3] == "extension_compression"):
+                nresp += 1
+
+                def accepted(atom, pol):
+                    return atom[0] == "truth" and Q.mentions(atom[1], lambda x: x[0] == "field" and x[3] == "accepted") and pol
+                ctx.ob("C19.1 R-GATE", sur, Q.ordinal_site(sur, i, P) + ":response-only-if-accepted", Q.must_pass(P, sur, i.block, accepted),
+                       "the extension response string is put into the 101 without the test that the offer was accepted: a declined offer "
+                       "leaves a partly written, unterminated response behind")
+    if nresp < 1:
+        raise AnalysisBroken("send_upgrade_response: use of the extension response not found")
+    # (c) windows: the inflater gets the client's window, the deflater the server's
+    ac = P.fn("compression.c:alloc_compression")
+    seen = {"inflateInit2_": 0, "deflateInit2_": 0}
+    for pe in _evals(ctx, P, ac, 1):
+        for e in pe.events:
+            if e.kind == "call" and e.data["callee"] in seen:
+                cn = e.data["callee"]
+                seen[cn] += 1
+                fld = "client_max_window_bits" if cn == "inflateInit2_" else "server_max_window_bits"
+                argi = 1 if cn == "inflateInit2_" else 3
+                cur = None
+                for k, v in e.mem.items():
+                    if isinstance(k, tuple) and k and k[0] == "field" and k[3] == fld:
+                        cur = v
+                if cur is None:
+                    cur = ({("init", next((P.term(ac, x.a[0]) for x in ac.all_insts() if x.op == "load" and P.term(ac, x.a[0])[0] == "field" and
+                                           P.term(ac, x.a[0])[3] == fld), None)): 1}, 0)
+                A.need("C19.7 R-PAIR", ac, "window:" + cn, pe.equal(a_scale(e.data["args"][argi], -1), cur),
+                       "%s() is given window bits %s; the %s must use %s (raw deflate: negated), which is %s here" %
+                       (cn, a_fmt(e.data["args"][argi]), "inflater (client to server)" if cn == "inflateInit2_" else "deflater (server to client)",
+                        fld, a_fmt(cur)), pe)
+    if min(seen.values()) < 1:
+        raise AnalysisBroken("alloc_compression: inflateInit2/deflateInit2 calls not found: %s" % seen)
     A.flush()
+    ctx.floor("C19.7 R-PAIR", 2)
     ctx.floor("C19.3 R-BOUND", 3)
     ctx.floor("C19.3 R-CURSOR", 5)
     ctx.floor("C19.4 R-TYPESTATE", 2)
